@@ -233,9 +233,35 @@ func (e *Exec) invoke(s *State, site ssa.Instruction, cc *ssa.CallCommon, res ss
 	}
 	key := pkg + "::(" + name + ")." + m.Name()
 	sp := e.p.cs.Specs[key]
+	if sp == nil {
+		sp = e.p.cs.Specs["::("+pkg+"."+name+")."+m.Name()]
+	}
 	if m.Name() == "Error" && isErrorType(recvT) {
 		e.setRes(s, res, Val{"999", e.c.fresh("Int", "strlen")})
 		return
+	}
+	iv := e.val(s, cc.Value)[0]
+	// devirtualise when the dynamic type is known (interface built in this very function)
+	if ct, ok := e.p.ifaceTyp[iv]; ok {
+		ms := e.p.prog.MethodSets.MethodSet(ct)
+		if sel := ms.Lookup(m.Pkg(), m.Name()); sel != nil {
+			fn := e.p.prog.MethodValue(sel)
+			args := append(Val{}, e.p.ifaceObj[iv]...)
+			for _, a := range cc.Args {
+				args = append(args, e.val(s, a)...)
+			}
+			if fsp := e.p.specFor(fn); fsp != nil && (fsp.Trusted || !fsp.Inline) && fn != e.root.fn {
+				e.contractCall(s, site, fn, fsp, args, res)
+			} else {
+				e.inline(s, site, fn, args, res, nil)
+			}
+			return
+		}
+	}
+	if _, isGlobalLoad := globalLoad(cc.Value); !isGlobalLoad {
+		e.c.oblige(e.obl("safety", "nil-interface", site), s.pc, e.c.B("(not (= %s 0))", iv))
+	} else {
+		e.p.note("package-level interface variables (e.g. globalMathRandomGenerator) are assumed non-nil: they are initialised at package init and never reassigned")
 	}
 	if sp == nil {
 		fail("%s: interface call %s without an interface contract", e.name, key)
@@ -252,6 +278,15 @@ func (e *Exec) invoke(s *State, site ssa.Instruction, cc *ssa.CallCommon, res ss
 		typs = append(typs, sig.Params().At(i).Type())
 	}
 	e.applyContract(s, site, key, sp, names, typs, args, sig.Results(), res, nil)
+}
+
+func globalLoad(v ssa.Value) (*ssa.Global, bool) {
+	if u, ok := v.(*ssa.UnOp); ok {
+		if g, ok := u.X.(*ssa.Global); ok {
+			return g, true
+		}
+	}
+	return nil, false
 }
 
 // ---- contract calls ----
@@ -329,60 +364,62 @@ func (e *Exec) applyContract(s *State, site ssa.Instruction, calleeName string, 
 		}
 		return
 	}
-	// modifies: evaluated in the pre-state; must lie inside the caller's own frame
-	var locs []frameLoc
+	// modifies: evaluated in the pre-state; must lie inside the caller's own frame.
+	// Bounded locations (p.*, p.f) are havocked cell by cell with a store chain
+	// (quantifier-free); unbounded ones (s[*]) get a fresh heap with a frame axiom.
+	// Objects the callee allocates keep whatever the (never-read) pre-state held
+	// at their addresses: nothing was ever assumed about unallocated cells.
+	var qlocs []frameLoc
+	qkinds := map[string]bool{}
 	for _, m := range sp.Modifies {
 		l := preEnv.modLoc(m)
-		locs = append(locs, l)
 		e.frameCheck(s, site, l.obj, l.lo, l.hi)
+		if m.Kind == "all" || m.Kind == "cell" {
+			for i, lf := range preEnv.modLeaves(m) {
+				addr := l.lo
+				if i > 0 {
+					addr = c.I("(+ %s %d)", l.lo, i)
+				}
+				nv := c.fresh("Int", "mod")
+				c.assume("true", c.inRange(nv, lf))
+				h := s.heaps[lf.kind]
+				s.heaps[lf.kind] = c.H("(store %s %s (store (select %s %s) %s %s))", h, l.obj, h, l.obj, addr, nv)
+			}
+			continue
+		}
+		qlocs = append(qlocs, l)
+		for _, k := range preEnv.modKinds(m) {
+			qkinds[k] = true
+		}
 	}
-	// havoc
-	kinds := map[string]bool{}
 	allocs := !sp.NoAlloc
 	if callee != nil && callee.Blocks != nil && !sp.Trusted {
 		body := map[*ssa.BasicBlock]bool{}
 		for _, b := range callee.Blocks {
 			body[b] = true
 		}
-		ms := e.modifiedIn(body)
-		kinds = ms.kinds
-		allocs = ms.allocs
-	} else {
-		for _, m := range sp.Modifies {
-			for _, k := range preEnv.modKinds(m) {
-				kinds[k] = true
-			}
-		}
-		if allocs {
-			for _, k := range heapKinds {
-				kinds[k] = true
-			}
-		}
+		allocs = e.modifiedIn(body).allocs
 	}
 	if allocs {
 		s.A = c.fresh("Int", "callA")
 		c.assume("true", c.B("(<= %s %s)", pre.A, s.A))
 	}
 	var ks []string
-	for k := range kinds {
+	for k := range qkinds {
 		ks = append(ks, k)
 	}
 	sort.Strings(ks)
 	for _, k := range ks {
 		hp := c.fresh("HP", "Hcallpre"+k)
-		c.lines = append(c.lines, fmt.Sprintf("(assert (= %s %s))", hp, pre.heaps[k]))
+		c.lines = append(c.lines, fmt.Sprintf("(assert (= %s %s))", hp, s.heaps[k]))
 		nh := c.fresh("HP", "Hcall"+k)
 		s.heaps[k] = nh
-		if len(locs) == 0 {
-			c.lines = append(c.lines, fmt.Sprintf("(assert (forall ((o Int)) (! (=> (< o %s) (= (select %s o) (select %s o))) :pattern ((select %s o)))))", pre.A, nh, hp, nh))
-		} else {
-			var inf []string
-			for _, f := range locs {
-				inf = append(inf, fmt.Sprintf("(and (= o %s) (<= %s x) (< x %s))", f.obj, f.lo, f.hi))
-			}
-			c.lines = append(c.lines, fmt.Sprintf("(assert (forall ((o Int) (x Int)) (! (=> (and (< o %s) (not (or %s false))) (= (select (select %s o) x) (select (select %s o) x))) :pattern ((select (select %s o) x)))))",
-				pre.A, strings.Join(inf, " "), nh, hp, nh))
+		var inf []string
+		for _, f := range qlocs {
+			inf = append(inf, fmt.Sprintf("(and (= o %s) (<= %s x) (< x %s))", f.obj, f.lo, f.hi))
 		}
+		c.lines = append(c.lines, fmt.Sprintf("(assert (forall ((o Int) (x Int)) (! (=> (not (or %s false)) (= (select (select %s o) x) (select (select %s o) x))) :pattern ((select (select %s o) x)))))",
+			strings.Join(inf, " "), nh, hp, nh))
 	}
 	var rv Val
 	if results.Len() > 0 {
@@ -466,6 +503,21 @@ func (env *Env) modLoc(m *ModLoc) frameLoc {
 	}
 	specFail("modifies %s", m.Src)
 	return frameLoc{}
+}
+
+// modLeaves: the leaf cells of a bounded modifies location, in order.
+func (env *Env) modLeaves(m *ModLoc) []leaf {
+	switch m.Kind {
+	case "all":
+		return leaves(env.eval(m.Expr).typ.Underlying().(*types.Pointer).Elem())
+	case "cell":
+		base := env.eval(m.Expr.Args[0])
+		st := base.typ.Underlying().(*types.Pointer).Elem().Underlying().(*types.Struct)
+		_, path := fieldPath(st, m.Expr.Name)
+		_, ft := pathOffset(st, path)
+		return leaves(ft)
+	}
+	return nil
 }
 
 func (env *Env) modKinds(m *ModLoc) []string {
@@ -599,12 +651,7 @@ func (e *Exec) run(entry *State, args Val) (Val, *State) {
 				st.pc = pc
 				env := e.envAt(st, true)
 				for _, inv := range ls.Invs {
-					o := e.obl("inv-step", fmt.Sprintf("loop%d:%s", ord, inv.Label), nil)
-					o.Pos = fmt.Sprintf("%s:%d", shortFile(inv.File), inv.Line)
-					if len(inv.Props) > 0 {
-						o.Props = inv.Props
-					}
-					c.oblige(o, pc, env.evalBool(inv.Expr))
+					e.obligeClause("inv-step", fmt.Sprintf("loop%d:%s", ord, inv.Label), inv, pc, env)
 				}
 				if ls.Decreases != nil {
 					m := env.evalInt(ls.Decreases)
@@ -634,12 +681,7 @@ func (e *Exec) run(entry *State, args Val) (Val, *State) {
 			if ls != nil {
 				env := e.envAt(s, true)
 				for _, inv := range ls.Invs {
-					o := e.obl("inv-init", fmt.Sprintf("loop%d:%s", ord, inv.Label), nil)
-					o.Pos = fmt.Sprintf("%s:%d", shortFile(inv.File), inv.Line)
-					if len(inv.Props) > 0 {
-						o.Props = inv.Props
-					}
-					c.oblige(o, s.pc, env.evalBool(inv.Expr))
+					e.obligeClause("inv-init", fmt.Sprintf("loop%d:%s", ord, inv.Label), inv, s.pc, env)
 				}
 			}
 			e.autoInvs(s, b, s.pc, "inv-init", ord)
@@ -813,5 +855,22 @@ func (e *Exec) guardCheck(s *State, addr ssa.Value, in ssa.Instruction) {
 		}
 		// exempt: objects allocated by this very call (not yet shared)
 		c.oblige(o, s.pc, c.B("(or (<= %s %s) %s)", e.root.A0, p[0], held))
+	}
+}
+
+// obligeClause checks a labelled clause conjunct by conjunct.
+func (e *Exec) obligeClause(kind, label string, cl *Clause, pc string, env *Env) {
+	parts := splitConj(cl.Expr)
+	for pi, part := range parts {
+		lbl := label
+		if len(parts) > 1 {
+			lbl = fmt.Sprintf("%s/%d", label, pi+1)
+		}
+		o := e.obl(kind, lbl, nil)
+		o.Pos = fmt.Sprintf("%s:%d", shortFile(cl.File), cl.Line)
+		if len(cl.Props) > 0 {
+			o.Props = cl.Props
+		}
+		e.c.oblige(o, pc, env.evalBool(part))
 	}
 }
